@@ -36,7 +36,7 @@ ASSUMPTIONS = ["a stepping request is acknowledged only after its save; a write 
                "crash modelled in-process; the thorough tier replays a sample with each incarnation in a child process on a real directory"]
 FAULT_KINDS = ["preemption", "crash_between_requests", "second_crash", "crash_before_open", "torn:zero", "torn:one", "torn:header", "torn:inner", "torn:last",
                "lost_write", "stray_file"]
-PROBES = ["more_than_ten_steps_with_changing_settings", "saves_of_two_instances_interleaved", "stream_abandoned_by_client", "integer_run_specs", "whole_server_save_state", "second_session_in_instance", "restored_with_settings_history", "restored_instance_stepped", "torn_inside_inner_string", "damaged_file_contained",
+PROBES = ["two_concurrent_steps_of_one_instance", "more_than_ten_steps_with_changing_settings", "saves_of_two_instances_interleaved", "stream_abandoned_by_client", "integer_run_specs", "whole_server_save_state", "second_session_in_instance", "restored_with_settings_history", "restored_instance_stepped", "torn_inside_inner_string", "damaged_file_contained",
           "startup_with_stray_file", "several_instances_restored", "never_externalised_instance_exempt", "long_history_restored"]
 THOROUGH_PROBES = ["child_process_cross_check"]
 EXHAUSTIVE = {"quick": False, "thorough": False}
@@ -121,11 +121,12 @@ def gen_history(seed, long=False):
         ops.append(streams[j][idx[j]])
         idx[j] += 1
     ops = ops[:16]
-    if k >= 2 and rng.random() < 0.4 and not long:
+    if rng.random() < 0.4 and not long:
         # two stepping requests of two different instances arrive together: their saves interleave at source-line
         # granularity (both are acknowledged before anything crashes)
+        # ... or two run-step requests of the SAME instance (each is served or refused as locked; what was served is durable)
         cand = [n for n in range(len(ops) - 1) if ops[n]["op"] in ("step", "steps") and ops[n + 1]["op"] in ("step", "steps")
-                and ops[n]["inst"] != ops[n + 1]["inst"]]
+                and (ops[n]["inst"] != ops[n + 1]["inst"] or (ops[n]["op"] == "step" and ops[n + 1]["op"] == "step"))]
         for n in cand[:2] if rng.random() < 0.5 else cand[-1:]:
             if not ops[n - 1].get("pair") if n else True:
                 ops[n] = dict(ops[n], pair={"kind": "random", "seed": rng.randrange(2**32), "p": rng.choice([0.02, 0.05, 0.2])})
@@ -266,9 +267,19 @@ def _run(case, crash, log, res):
             o = ops[n - 1]
             if not (honour and o.get("pair") and n + 1 <= len(ops)):
                 return False
+            o2 = ops[n]
+            if o["op"] not in ("step", "steps") or o2["op"] not in ("step", "steps") or o["inst"] < 0 or o2["inst"] < 0:
+                return False        # (a shrunk history may have lost the partner)
+            if o["inst"] == o2["inst"] and not (o["op"] == "step" and o2["op"] == "step"):
+                return False
             if crash and (k == n or (crash.get("fault") and k == n + 1)):
                 return False        # the process cannot be lost "between" two requests that are in flight together
             if k2_ is not None and k2_ == n:
+                return False
+            if ops[n]["inst"] == o["inst"] and (not crash or n + 1 > k):
+                # which of two concurrent run-steps of ONE instance gets which step is the schedule's choice: such a pair
+                # is only run before the crash, where responses are not compared (what must hold is that whatever was
+                # served is durable); after the restart the two requests arrive one after the other
                 return False
             return True
 
@@ -300,6 +311,8 @@ def _run(case, crash, log, res):
                 res.fault("preemption", sched.switches)
                 res.probe("saves_of_two_instances_interleaved")
             log.add("pair", n, sched.interleaving_hash())
+            if ops[n - 1]["inst"] == ops[n]["inst"]:
+                res.probe("two_concurrent_steps_of_one_instance")
             for m in (n, n + 1):
                 r = box[m]
                 out[m] = (r.status, r.body if r.body is not None else r.text)
@@ -519,9 +532,36 @@ def execute(case):
     dropped = None
     if fault is not None and 1 <= k <= len(ops):
         dropped = k
+    # a request of a concurrent pair that was refused ("instance is locked") never happened as far as the session goes
+    refused = set()
+
+    def same_inst_pair(n, o):
+        return (o.get("pair") and n + 1 <= len(ops) and ops[n]["inst"] == o["inst"] and o["inst"] >= 0
+                and o["op"] == "step" and ops[n]["op"] == "step" and n + 1 <= k
+                and not (fault is not None and k == n + 1) and crash.get("k2") != n)
+    for n, o in enumerate(ops, start=1):
+        if same_inst_pair(n, o):
+            for m in (n, n + 1):
+                g = got.get(m)
+                if g is not None and g[0] == 500 and "locked" in str(g[1]):
+                    refused.add(m)
+                    res.probe("one_of_two_concurrent_steps_refused")
+    # ... and when both were served, the uninterrupted reference takes them in the order in which they were served
+    def _first_time(g):
+        try:
+            return min(float(t) for mg in g[1].values() for sc in mg.values() for series in sc.values() for t in series)
+        except Exception:
+            return None
+    order = list(range(1, len(ops) + 1))
+    for n, o in enumerate(ops, start=1):
+        if same_inst_pair(n, o) and n not in refused and n + 1 not in refused:
+            ta, tb = _first_time(got.get(n) or (0, {})), _first_time(got.get(n + 1) or (0, {}))
+            if ta is not None and tb is not None and tb < ta:
+                order[n - 1], order[n] = order[n], order[n - 1]
+                res.probe("concurrent_steps_served_in_reverse_order")
     tlog = EventLog()
     tres = RunResult()
-    twin_ops = [o for n, o in enumerate(ops, start=1) if n != dropped]
+    twin_ops = [ops[n - 1] for n in order if n != dropped and n not in refused]
     twin_case["ops"] = twin_ops
     twin_case["honour_pairs"] = False        # the uninterrupted reference takes the requests one after the other
     twin_out, _ = _run(twin_case, None, tlog, tres)
@@ -529,7 +569,7 @@ def execute(case):
     tmap = {}
     tn = 0
     for n in range(1, len(ops) + 1):
-        if n == dropped:
+        if n == dropped or n in refused:
             continue
         tn += 1
         tmap[n] = twin_out.get(tn)
